@@ -88,3 +88,28 @@ package hclsyntax
 //@ loop 5 invariant forall k string :: has(attrs, k) ==> has(b.Attributes, k) && !has(b.hiddenAttrs, k) && has(hiddenAttrs, k)
 //@ loop 6 invariant forall k string :: has(b.hiddenBlocks, k) ==> has(hiddenBlocks, k)
 //@ loop 6 invariant forall j int :: 0 <= j && j <= rangeindex ==> has(hiddenBlocks, schema.Blocks[j].Type)
+
+// verif:unit U9 props=C17
+
+// The per-evaluation state of a splat's anonymous symbol is only touched with its lock held.
+// verif:guarded AnonSymbolExpr.values valuesLock
+
+// verif:func (*AnonSymbolExpr).Value
+//@ requires e.valuesLock.held == 0
+//@ assigns e.valuesLock.held
+//@ ensures released: e.valuesLock.held == 0
+//@ ensures lookup: ctx != nil && has(e.values, ctx) ==> ret0 == e.values[ctx]
+
+// verif:func (*AnonSymbolExpr).setValue
+//@ requires e.valuesLock.held == 0 && ctx != nil
+//@ assigns e.valuesLock.held, e.values, mapof(e.values)
+//@ ensures released: e.valuesLock.held == 0
+//@ ensures set: has(e.values, ctx) && e.values[ctx] == val
+//@ ensures others: forall k *hcl.EvalContext :: k != ctx ==> has(e.values, k) == old(has(e.values, k)) && (has(e.values, k) ==> e.values[k] == old(e.values[k]))
+
+// verif:func (*AnonSymbolExpr).clearValue
+//@ requires e.valuesLock.held == 0 && ctx != nil
+//@ assigns e.valuesLock.held, mapof(e.values)
+//@ ensures released: e.valuesLock.held == 0
+//@ ensures cleared: !has(e.values, ctx) && e.values == old(e.values)
+//@ ensures others: forall k *hcl.EvalContext :: k != ctx ==> has(e.values, k) == old(has(e.values, k)) && (has(e.values, k) ==> e.values[k] == old(e.values[k]))
